@@ -26,8 +26,30 @@ def routing_scenario(rng):
     L = [[H.PERM, 0] + E.s(H.ALL_SCOPE), [H.PERM, 1] + E.s(H.ALL_SCOPE), [H.PERM, 0] + E.s(H.ALL_SCOPE),
          [H.PERM, 0] + E.s("actuate:Vehicle.Act0 actuate:Vehicle.Act1 actuate:Vehicle.Act2 read")]
     n = rng.randrange(4, 8)
+    from . import c02 as V2
+    types = [rng.choice([4, 4, 4, 6, 1, 10]) for _ in range(n)]
     for i in range(n):
-        L.append([H.ADD, 0] + E.s("Vehicle.Act%d" % i) + [4, rng.randrange(3), 2, 0, 0, 0])
+        L.append([H.ADD, 0] + E.s("Vehicle.Act%d" % i) + [types[i], rng.randrange(3), 2, 0, 0, 0])
+
+    def good(i):
+        """a valid value for actuator i and the number / truth value it stands for"""
+        t = types[i] if 0 <= i < n else 4
+        if t == 1:
+            b = rng.random() < 0.5
+            return E.val(E.BOOL, b), b
+        x = rng.randrange(100)
+        return {4: E.val(E.I32, x), 6: E.val(E.U32, x), 10: E.val(E.F32, V2.F(float(x)))}[t], x
+
+    def twin(i, x):
+        """the same number (or truth value) in another kind: ill-typed for actuator i, and printed like the valid one"""
+        t = types[i]
+        if t == 1:
+            return E.val(E.STR, "true" if x else "false")
+        alts = [E.val(E.I32, x), E.val(E.U32, x), E.val(E.I64, x), E.val(E.U64, x), E.val(E.F32, V2.F(float(x))),
+                E.val(E.F64, V2.D(float(x))), E.val(E.STR, str(x))]
+        own = {4: 0, 6: 1, 10: 4}[t]
+        return rng.choice([a for k, a in enumerate(alts) if k != own])
+
     L.append([H.ADD, 0] + E.s("Vehicle.Sensor") + [4, 1, 0, 0, 0, 0])
     sensor = n
     ids = list(range(n))
@@ -41,10 +63,13 @@ def routing_scenario(rng):
     order = sorted(own)
     prov_p = {0: 0, 1: 1, 2: 2}
     for h in order:
-        L.append([H.PROVIDE, prov_p[h], len(own[h])] + own[h])
+        named = list(own[h])
+        if rng.random() < 0.3:
+            named.insert(rng.randrange(len(named) + 1), rng.choice(own[h]))     # an actuator named twice in one claim
+        L.append([H.PROVIDE, prov_p[h], len(named)] + named)
     L.append([H.DUMP])
-    act = lambda p, i, v=None: [H.ACTUATE, p, i] + (v or [E.I32, rng.randrange(100)])
-    batch = lambda p, xs: [H.BATCH, p, len(xs)] + sum(([i] + (v or [E.I32, rng.randrange(100)]) for i, v in xs), [])
+    act = lambda p, i, v=None: [H.ACTUATE, p, i] + (v or good(i)[0])
+    batch = lambda p, xs: [H.BATCH, p, len(xs)] + sum(([i] + (v or good(i)[0]) for i, v in xs), [])
     ok = lambda i: (i, None)
     bad_value = lambda i: (i, rng.choice([E.val(E.STR, "x"), E.val(E.I64, 2**40), [0], E.val(E.BOOL, True)]))
     caller = lambda: rng.choice([0, 0, 2, 3])
@@ -69,6 +94,11 @@ def routing_scenario(rng):
                 parts.append(bad_value(rng.choice(live)))
             if rng.random() < 0.3 and live:
                 parts.append(ok(rng.choice(live)))          # possibly a duplicate id
+            if rng.random() < 0.3 and live:
+                # the same actuator twice: a valid value and its twin of another kind (same number, same text)
+                i = rng.choice(live)
+                v, x = good(i)
+                parts += [(i, v), (i, twin(i, x))]
             rng.shuffle(parts)
             if not parts:
                 continue
